@@ -43,7 +43,7 @@ Logged ==
                                             /\ Head(task[t].todo).to = Ln.b /\ OwnerNext(t) /\ Last(o'.disp).out = Ln.out
   \/ Is("ProcB") /\ Ln.ok = "rl" /\ task[RL(Ln.b)].e = Ln.e /\ (RLBegin(Ln.b) \/ RLGranted(Ln.b)) /\ task'[RL(Ln.b)].pc = "pb0"
   \/ Is("ProcB") /\ Ln.ok = "in" /\ q[Ln.b] # <<>> /\ Head(q[Ln.b]) = Ln.e /\ InlineTake(Ln.oa, Ln.b)
-  \/ Is("ProcX") /\ task[OwnerT].fe = Ln.e /\ task[OwnerT].fb = Ln.b /\ ProcSelect(OwnerT) /\ task'[OwnerT].pc = "abort"
+  \/ Is("ProcX") /\ Ln.exc # "Cancelled" /\ task[OwnerT].fe = Ln.e /\ task[OwnerT].fb = Ln.b /\ ProcSelect(OwnerT) /\ task'[OwnerT].pc = "abort"
   \/ Is("HEnter") /\ Ln.sync /\ nact + 1 = Ln.act /\ \E t \in Tasks : /\ task[t].fe = Ln.e /\ task[t].fb = Ln.b /\ task[t].todo # <<>>
                                 /\ Head(task[t].todo).id = Ln.h /\ Head(task[t].todo).kind = "sync"
                                 /\ TaskLabelKind(t) = Ln.byk /\ Last(ev[Ln.e].path) = Ln.rb /\ OwnerNext(t)
@@ -55,18 +55,22 @@ Logged ==
   \/ Is("HOp") /\ task[HT(Ln.act)].pc = (IF Ln.op = "y" THEN "yield" ELSE "sleep") /\ HWake(Ln.act)
   \/ Is("HReadBus") /\ cur = HT(Ln.act) /\ Last(ev[task[HT(Ln.act)].e].path) = Ln.rb /\ UNCHANGED vars
   \/ Is("AwB") /\ \E k \in DOMAIN task[HT(Ln.act)].kids : task[HT(Ln.act)].kids[k] = Ln.e /\ HAwaitBegin(Ln.act, k)
-  \/ Is("AwE") /\ task[HT(Ln.act)].aw = Ln.e /\ (HAwaitDone(Ln.act) \/ InlineGiveUp(Ln.act))
-  \/ Is("HExit") /\ task[HT(Ln.act)].pc # "sync" /\ HFinish(Ln.act, IF Ln.out = "ret" THEN "ret" ELSE "raise")
+  \/ Is("AwE") /\ ~Ln.canc /\ task[HT(Ln.act)].aw = Ln.e /\ (HAwaitDone(Ln.act) \/ InlineGiveUp(Ln.act))
+  \/ Is("AwE") /\ Ln.canc /\ task[HT(Ln.act)].aw = Ln.e /\ HCancelAw(Ln.act)
+  \/ Is("HExit") /\ Ln.out = "cancel" /\ HCancelExit(Ln.act)
+  \/ Is("ProcX") /\ Ln.exc = "Cancelled" /\ task[OwnerT].fe = Ln.e /\ task[OwnerT].fb = Ln.b /\ OwnerAbandon(OwnerT)
+  \/ Is("HExit") /\ Ln.out # "cancel" /\ task[HT(Ln.act)].pc # "sync" /\ HFinish(Ln.act, IF Ln.out = "ret" THEN "ret" ELSE "raise")
   \/ Is("ProcE") /\ task[OwnerT].fe = Ln.e /\ task[OwnerT].fb = Ln.b /\ OwnerTail(OwnerT)
   \/ Is("XAwB") /\ \E k \in DOMAIN task[DT(Ln.d)].kids : task[DT(Ln.d)].kids[k] = Ln.e /\ DAwaitBegin(Ln.d, k)
   \/ Is("XAwE") /\ task[DT(Ln.d)].aw = Ln.e /\ DAwaitEnd(Ln.d)
-  \/ Is("IdleB") /\ DIdleBegin(Ln.d, Ln.b)
+  \/ Is("IdleB") /\ DIdleBegin(Ln.d, Ln.b, Ln.tmo >= 0)
   \/ Is("IdleE") /\ task[DT(Ln.d)].b = Ln.b /\ DIdleRecheck(Ln.d) /\ task'[DT(Ln.d)].pc = "run"
+  \/ Is("IdleE") /\ task[DT(Ln.d)].b = Ln.b /\ DIdleTimeout(Ln.d)
   \/ (Is("Init") \/ Is("End") \/ Is("Acc")) /\ UNCHANGED vars
 
 Counted ==   \* silent steps that change the state
   \/ \E b \in B : RLStart(b) \/ RLTake(b) \/ RLPollIdle(b) \/ (RLBegin(b) /\ task'[RL(b)].pc = "lockwait")
-  \/ \E t \in Tasks : (ProcSelect(t) /\ task'[t].pc = "pb") \/ (OwnerNext(t) /\ task'[t].pc = "waith") \/ OwnerResume(t) \/ OwnerEpilogue(t) \/ OwnerAbort(t) \/ FwdReturn(t) \/ SyncReturn(t) \/ ParStart(t)
+  \/ \E t \in Tasks : (ProcSelect(t) /\ task'[t].pc = "pb") \/ (OwnerNext(t) /\ task'[t].pc = "waith") \/ OwnerResume(t) \/ OwnerEpilogue(t) \/ OwnerAbort(t) \/ FwdReturn(t) \/ SyncReturn(t) \/ ParStart(t) \/ TimeoutFire(t)
   \/ \E k \in 1..MaxAct : XStart(k) \/ XEnd(k)
   \/ \E a \in 1..MaxAct : HSuspend(a, "yield") \/ HSuspend(a, "sleep")
   \/ \E i \in 1..NDrv : DIdleStart(i) \/ DIdleJoin(i) \/ DIdleFlag(i) \/ (DIdleRecheck(i) /\ task'[DT(i)].pc # "run")
